@@ -124,18 +124,20 @@ for lvl, lay in [(0, 0), (1, 0), (-1, 0), (-2, 0)]:
     c18_cases.append(case("cleanDir level %d layout %d" % (lvl, lay), "VerifC18Clean", [lvl, lay], ["ok", "removed"], Q))
 for lvl, lay in [(2, 0), (3, 0), (5, 0), (6, 0), (-1, 1), (0, 1), (2, 1)]:
     c18_cases.append(case("cleanDir level %d layout %d" % (lvl, lay), "VerifC18Clean", [lvl, lay], ["ok"], T))
+c18_cases.append(case("logSize: size of the signature-verified published checkpoint", "VerifC18Size", [0], ["size", "refused"], Q))
+c18_cases.append(case("mirroredLogSize: size of the published mirror checkpoint", "VerifC18Size", [1], ["size", "refused"], Q))
 
 CHECKS["C18"] = {
     "level": "model_checking",
-    "jobs": [dict(AFTERSUN, harness=["cmd_partial-aftersun/zz_verif_c18.go"], native=False, cases=c18_cases)],
+    "jobs": [dict(AFTERSUN, harness=["cmd_partial-aftersun/zz_verif_c18.go", "cmd_partial-aftersun/zz_verif_c18s.go"], native=False, cases=c18_cases)],
     "bounds": {
         "quick": "cleanDir over level directories tile/0, tile/1, tile/data, tile/names whose contents are any subset of a 14-path universe "
                  "(full tiles 000/001/x001/002, their .p directories with widths 5/255/1/77, an empty full tile, a stray file, a leftover temp file), "
-                 "published tree size symbolic over [0, 2^63)",
+                 "published tree size symbolic over [0, 2^63); logSize / mirroredLogSize over checkpoints of 16 sizes around the tile boundaries of every level (0 .. 2^62+255), right or foreign origin, right or foreign signing key",
         "thorough": "additionally levels 2,3,5,6 and the witness/mirror layout (torchwood.ParseTilePath)",
     },
     "assumptions": ["model file system replaces os.Root / io/fs (ReadDir sorted listing, Remove of files and empty directories, Stat, Open, immutable flag); the real kernel is outside the claim",
-                    "size is taken as given: logSize/mirroredLogSize (signature-verified published checkpoint) are checked separately",
+                    "cleanDir takes the size as given; logSize / mirroredLogSize are checked by VerifC18Size (ideal ECDSA, JSON metadata and x509 key parsing as contracts; note.Open, the RFC 6962 verifier and torchwood.ParseCheckpoint from their real source); mirroredLogSize does not verify a signature in the real code (observation)",
                     "levels >= 7 (tile span overflows int64 and the division panics) are outside the claim: such tiles need a tree of 2^56 entries"],
 }
 
@@ -272,6 +274,8 @@ c07_cases = [
     case("n0=0 duplicates at every yield point", "VerifC02", [0, 0, 1, 0, 1], ["done", "duplicate"], Q),
     case("n0=1 cache loss or rollback", "VerifC02", [1, 0, 1, 1, 1], ["done", "duplicate"], Q),
     case("n0=1 failed round then resubmission (cache rollback allowed)", "VerifC02", [1, 1, 0, 1, 1], ["done", "fatal"], Q),
+    case("n0=0 a whole round interleaved into a submission with a new issuer", "VerifC07SubmitDuringRound", [0], ["done", "interleaved"], Q),
+    case("n0=255 a whole round interleaved into a submission with a new issuer", "VerifC07SubmitDuringRound", [255], ["done", "interleaved"], T),
     case("acknowledged indexes under eviction, pool size 1", "VerifC17Pool", [1, 3], ["sequenced", "eviction"], Q),
     case("acknowledged indexes under eviction, pool size 2", "VerifC17Pool", [2, 4], ["sequenced", "eviction"], Q),
     case("n0=255 two actions with cache loss", "VerifC02", [255, 0, 2, 1, 1], ["done"], T),
@@ -287,7 +291,7 @@ CHECKS["C02"] = {
 CHECKS["C07"] = {
     "level": "model_checking",
     "jobs": [dict(CTLOG, harness=WORLD + ["internal_ctlog/zz_verif_c01.go", "internal_ctlog/zz_verif_c03.go", "internal_ctlog/zz_verif_c02.go", "internal_ctlog/zz_verif_c17.go"], native=False, cases=c07_cases)],
-    "bounds": {"quick": "up to 5 submissions of 2 symbolic bytes (every duplicate pattern), placed before the round, at any yield point, between rounds and after a restart; cache rollback to any earlier state; one fault",
+    "bounds": {"quick": "up to 5 submissions of 2 symbolic bytes (every duplicate pattern), placed before the round, at any yield point, between rounds and after a restart; cache rollback to any earlier state; one fault; a whole sequencing round interleaved at any storage operation of a submission that uploads a new issuer",
                "thorough": "two interleaved actions, two faults, pre-state 255"},
     "assumptions": WORLD_ASSUME + ["submitters run as atomic sections at yield points", "legacy 128-bit cache table and the recompute-cache tool are covered by the cache-key kernel check"],
 }
@@ -303,6 +307,7 @@ c17_cases = [
     case("stop by cancellation", "VerifC17Stop", [0, 1], ["stopped"], Q),
     case("stop by the read-only date", "VerifC17Stop", [1, 1], ["stopped"], Q),
     case("stop by a fatal lock failure", "VerifC17Stop", [2, 0], ["stopped"], Q),
+    case("stop by a clock that does not progress (arbitrary reading)", "VerifC17Stop", [3, 1], ["stopped", "progressed"], Q),
     case("stop by a fatal lock failure after two rounds", "VerifC17Stop", [2, 2], ["stopped"], T),
     case("HTTP answer: rejected from a full pool (503)", "VerifC09Status", [0], ["answered"], Q),
     case("HTTP answer: evicted (503 retry later)", "VerifC09Status", [1], ["answered"], Q),
@@ -312,7 +317,7 @@ CHECKS["C17"] = {
     "level": "model_checking",
     "jobs": [dict(CTLOG, harness=C17H, native=False, cases=c17_cases)],
     "bounds": {"quick": "pool sizes 0 (unlimited), 1, 2; 3-4 arrivals with symbolic priority and symbolic bytes; the eviction victim is chosen by a symbolic map-iteration start; one round; "
-                        "RunSequencer with a manual ticker stopped by cancellation, by the read-only date (symbolic time past the limit) or by a lock failure",
+                        "RunSequencer with a manual ticker stopped by cancellation, by the read-only date (symbolic time past the limit), by a lock failure or by an arbitrary (possibly stalled or backward) clock reading",
                "thorough": "pool size 3 with 5 arrivals, pool size 2 with 6 arrivals, stops after two rounds"},
     "assumptions": WORLD_ASSUME + ["virtual time: the ticker fires when the harness says so; time.Since is a harness-controlled value", "HTTP status mapping (503/410/500) is checked in C09's harness",
                                    "goroutine scheduling is cooperative: the sequencer goroutine runs until it blocks"],
@@ -418,11 +423,11 @@ for kind, clen, ep in [(0, 1, 0), (0, 3, 0), (1, 2, 1), (2, 3, 1), (2, 4, 1), (1
     ok = not ((kind >= 1 and clen < 2) or (kind == 2 and clen < 3) or ((kind >= 1) != (ep == 1)))
     c09_cases.append(case("submit kind %d chain %d endpoint %d" % (kind, clen, ep), "VerifC09Submit", [kind, clen, ep], ["rejected"] + (["accepted"] if ok else []), Q))
 c09_cases += [case("status mode %d" % m, "VerifC09Status", [m], ["answered"], Q) for m in range(4)]
-c09_cases.append(case("roots", "VerifC09Roots", [], ["installed"], Q))
+c09_cases.append(case("roots: reload with a failing upload, then retry", "VerifC09Roots", [], ["installed", "failed"], Q))
 CHECKS["C09"] = {
     "level": "model_checking",
     "jobs": [dict(CTLOG, harness=sorted(set(WORLD)), native=False, cases=c09_cases)],
-    "bounds": {"quick": "abstract chains of 1-4 certificates with symbolic Raw/TBS/SPKI bytes; certificate, precertificate, precertificate with a precertificate signing certificate; both endpoints; validator accepts or rejects (symbolic); malformed poison extension; full pool, eviction, read-only and failed-round answers; root-set installation with symbolic PEM bytes",
+    "bounds": {"quick": "abstract chains of 1-4 certificates with symbolic Raw/TBS/SPKI bytes; certificate, precertificate, precertificate with a precertificate signing certificate; both endpoints; validator accepts or rejects (symbolic); malformed poison extension; full pool, eviction, read-only and failed-round answers; root-set installation with symbolic PEM bytes, one storage fault (applied or not) on the upload, then a retry with the same bytes",
                "thorough": "same"},
     "assumptions": WORLD_ASSUME + ["X.509 path validation, EKU and NotAfter-window enforcement inside certificate-transparency-go are NOT encoded: ctfe.ValidateChain is a stub that accepts or rejects nondeterministically and whose arguments (root pool, window pointers, EKU list) are checked; the claim is 'accepted exactly when the validator accepts, invoked with the right trust configuration'",
                                    "IsPrecertificate / BuildPrecertTBS are functions of the abstract certificate; JSON request/response framing is modelled; PEM parsing is a stub"],
@@ -456,7 +461,7 @@ c16_cases = [
 CHECKS["C16"] = {
     "level": "model_checking",
     "jobs": [dict(WITNESS, harness=WW + ["internal_witness/zz_verif_c14.go", "internal_witness/zz_verif_c16.go"], native=False, cases=c16_cases)],
-    "bounds": {"quick": "log of 4 leaves (forked at 1): every checkpoint size 1-4, start 0-4, end 0-5, nine combinations of signers on the checkpoint (none, witness ML-DSA, mirror ML-DSA, both, witness+Ed25519, foreign only, forged witness line only, mirror+forged, Ed25519 only), right / wrong / other-branch subtree hash, right / corrupted proof",
+    "bounds": {"quick": "log of 4 leaves (forked at 1): every checkpoint size 1-4, start 0-4, end 0-5, twelve combinations of signers on the checkpoint (none, witness ML-DSA, mirror ML-DSA, both, witness+Ed25519, foreign only, forged witness line only, mirror+forged, Ed25519 only, witness + a foreign key under the mirror's name, mirror + a foreign key under the witness's name, both impostor lines only), right / wrong / other-branch subtree hash, right / corrupted proof",
                "thorough": "log of 8 leaves"},
     "assumptions": [IDEAL_HASH, "ideal deterministic ML-DSA / Ed25519 signatures (opaque keys); log signatures: ideal MAC", "torchwood.ValidSubtree, CheckSubtree, SubtreeHash, ProveSubtree, the cosignature signer/verifier and note.Open/Sign are executed from their real source on concrete sizes",
                     "(start, end) and sizes range over the small log (decimal parsing of 64-bit values is exercised on those); larger trees are outside the claim"],
@@ -578,7 +583,7 @@ MANIFEST_TEXT = {
         "note": "small logs (2-4 entries quick, 258 thorough); the HTTP layer and concurrent interleaving of the three phases with other requests are outside the claim; ideal hashing, signatures and AEAD",
     },
     "C16": {
-        "text": "bounded symbolic execution of processSignSubtreeRequest and splitSignatures with the real torchwood ValidSubtree/CheckSubtree/cosignature code and note.Open over a small forked log: every (start, end, checkpoint size), nine signer combinations on the presented checkpoint (including foreign and forged lines), right/wrong/other-branch subtree hash and right/corrupted proof; an answer implies an independently recomputed valid range within the checkpoint, the right subtree hash, and exactly one valid subtree cosignature per own ML-DSA key whose cosignature is on the checkpoint",
+        "text": "bounded symbolic execution of processSignSubtreeRequest and splitSignatures with the real torchwood ValidSubtree/CheckSubtree/cosignature code and note.Open over a small forked log: every (start, end, checkpoint size), twelve signer combinations on the presented checkpoint (including foreign and forged lines and lines under an own name made with a foreign key), right/wrong/other-branch subtree hash and right/corrupted proof; an answer implies an independently recomputed valid range within the checkpoint, the right subtree hash, and exactly one valid subtree cosignature per own ML-DSA key whose cosignature is on the checkpoint",
         "note": "logs of 4 (quick) / 8 (thorough) leaves; ideal hashing and signatures; sizes and ranges beyond the small log are outside the claim",
     },
     "C19": {
